@@ -259,8 +259,8 @@ def run(ctx):
     ctx.rng.shuffle(sample)
     sample = sample[: (120 if ctx.quick() else 1500)]
     # stratified: the registration class (re-binds first) and the other calls in the host-functions world
-    for cls, pref, n in (("registration", "rebind-", 30 if ctx.quick() else 400),
-                         ("registration", "", 15 if ctx.quick() else 200), ("bound", "", 15 if ctx.quick() else 200)):
+    for cls, pref, n in (("registration", "rebind-", 24 if ctx.quick() else 400),
+                         ("registration", "", 8 if ctx.quick() else 200), ("bound", "", 8 if ctx.quick() else 200)):
         have = {c["id"] for c in sample}
         more = [c for c in cases if meta[c["id"]].get("cls") == cls and meta[c["id"]]["name"].startswith(pref)
                 and c["id"] not in have]
